@@ -127,8 +127,11 @@ class Resolver:
                             if a is None:
                                 raise ValueError("default of %s.%s not expressible as an atom" % (d["name"], fl["name"]))
                             de = {"a": a}
-                        fields.append({"id": fid, "req": req, "name": fl["name"], "type": st, "def": de,
-                                       "w": int(fl.get("w", 0))})
+                        fd = {"id": fid, "req": req, "name": fl["name"], "type": st, "def": de,
+                              "w": int(fl.get("w", 0))}
+                        if fl.get("vals"):
+                            fd["vals"] = fl["vals"]
+                        fields.append(fd)
                     if d["name"] in structs:
                         raise ValueError("duplicate struct name %s in program" % d["name"])
                     structs[d["name"]] = {"kind": d["k"], "fields": fields}
